@@ -31,9 +31,9 @@ def expected_extend(va, vb, idmap, offsets_given=False):
         atoms.append(a)
     out = {'atoms': atoms}
     for _, plural in KINDS:
-        new = [dict(t, atoms=tuple(corr[x] for x in t['atoms'])) for t in vb[plural]]
+        new = [dict(t, atoms=tuple(corr[x] for x in t['atoms']), src='other') for t in vb[plural]]
         newkeys = {canon(t['atoms']) for t in new}
-        kept = [dict(t) for t in va[plural] if canon(t['atoms']) not in newkeys] if new else [dict(t) for t in va[plural]]
+        kept = [dict(t, src='self') for t in va[plural] if canon(t['atoms']) not in newkeys] if new else [dict(t, src='self') for t in va[plural]]
         out[plural] = kept + new
     return out
 
@@ -79,6 +79,16 @@ def compare(after, want, va, vb, labels_after, explicit_offsets):
         m2 = merge_labels(la2, lb2)
         if labels_after[kind] != m2:
             return "extra %s labels %r, expected %r" % (kind, labels_after[kind], m2)
+        # the extra columns of every term: its own values under its own labels, '.' under the labels only the other side has
+        if m2:
+            for a, b in zip(g, w):
+                if 'src' not in b:
+                    continue
+                own = la2 if b['src'] == 'self' else lb2
+                row = {l: v for l, v in zip(own, b.get('extra') or ())}
+                exp = tuple(row.get(l, '.') for l in m2)
+                if a.get('extra') != exp:
+                    return "%s %r extra fields %r, expected %r (labels %r)" % (kind, a['atoms'], a.get('extra'), exp, m2)
     return None
 
 
@@ -209,6 +219,18 @@ def run(rec, tier, seed):
                     rec.case(repr(spec), group='kinds')
                     if msg:
                         rec.fail('extend', 'extend', "%s on %r" % (msg, spec), spec, 'C11/extend/post')
+    # self has extra columns for every kind of term and 5 atoms (different numbers of terms per kind); the other has only some kinds of term, with
+    # or without extra columns of its own
+    for kb in (['angle'], ['improper'], ['bond', 'dihedral'], ['dihedral'], ['bond', 'angle', 'improper']):
+        for xb in (False, True):
+            a = dict(n=5, seed=0, terms=True, coeffs=True, extra=True, cell='ortho')
+            b = dict(n=5, seed=4, terms=True, coeffs=True, extra=xb, cell=None, kinds=list(kb))
+            for m in ({}, {0: 2}, {1: 0, 3: 4}):
+                spec = dict(a=a, b=b, idmap={str(k): v for k, v in m.items()}, times=1)
+                msg = check(spec)
+                rec.case(repr(spec), group='extra-columns-and-kinds')
+                if msg:
+                    rec.fail('extend', 'extend', "%s on %r" % (msg, spec), spec, 'C11/extend/post')
     # a fragment object that is re-parameterised between two extensions
     for n in (2, 3):
         for c in (True, False):
